@@ -75,6 +75,24 @@ func (fr *frame) call(b *ssa.BasicBlock, site ssa.Instruction, c *ssa.CallCommon
 		atypes = append(atypes, a.Type())
 	}
 	name := calleeName(c)
+	if x.con != nil && fr.depth == 0 {
+		for _, nn := range x.con.NonNil {
+			if name != "" && (name == nn || shortCallee(name) == nn) {
+				res, nh := fr.callCounted(b, site, c, name, sig, rt, args, atypes, reach, h)
+				if len(res.ts) > 0 {
+					x.sc.assertC(implies(reach, not(eq(res.ts[0], "0"))), "assumed: "+nn+" never returns nil")
+					x.assumed["nonnil: "+nn+" never returns nil"] = true
+				}
+				return res, nh
+			}
+		}
+	}
+	return fr.callCounted(b, site, c, name, sig, rt, args, atypes, reach, h)
+}
+
+// callCounted: ghost counters around the call proper.
+func (fr *frame) callCounted(b *ssa.BasicBlock, site ssa.Instruction, c *ssa.CallCommon, name string, sig *types.Signature, rt types.Type, args []Val, atypes []types.Type, reach Term, h Heap) (Val, Heap) {
+	x := fr.x
 	h = fr.countCall(c, name, args, atypes, h)
 	if matched := fr.countMatches(c, name); len(matched) > 0 {
 		res, nh := fr.call2(b, site, c, name, sig, rt, args, atypes, reach, h)
@@ -364,6 +382,13 @@ func (x *Enc) pureCall(key string, args []Val, atypes []types.Type, rt types.Typ
 			continue
 		}
 		ls := leaves(atypes[i])
+		// array values are compared by content (valEq): a pure function of an array value is a function of its
+		// content id, so that equal arrays give equal results
+		if at, isArr := atypes[i].Underlying().(*types.Array); isArr && len(a.ts) == 1 && nLeaves(at.Elem()) == 1 && leaves(at.Elem())[0].Sort == SInt {
+			ts = append(ts, app("bytesval", a.ts[0], "0", num(at.Len())))
+			sorts = append(sorts, "Int")
+			continue
+		}
 		for j, t := range a.ts {
 			ts = append(ts, t)
 			sorts = append(sorts, ls[j].Sort.String())
